@@ -6,5 +6,7 @@ LinksDef == (1 :> <<>> @@ 2 :> <<1>> @@ 3 :> <<2, 1>> @@ 4 :> <<2, 1>>)
 HeadsA == (1 :> <<3>> @@ 2 :> <<2, 4>> @@ 3 :> <<3, 4>>)
 \* C10: entry 2 (a head by a non-writer) and entry 5 (an ancestor smuggled in by entry 4) are refused by the log
 HeadsB == (1 :> <<2, 3>> @@ 2 :> <<4, 3, 2>> @@ 3 :> <<3, 4>>)
+\* the first announcement lists a valid head before one whose hash does not match (6): dropped as a whole
+HeadsC == (1 :> <<3, 6>> @@ 2 :> <<4, 3, 2>> @@ 3 :> <<3, 4>>)
 LinksB == (1 :> <<>> @@ 2 :> <<>> @@ 3 :> <<1>> @@ 4 :> <<1, 5>> @@ 5 :> <<>>)
 =============================================================================
